@@ -28,6 +28,9 @@ SlaveCmd(st, e, t, code) ==
               IF boot THEN <<[side |-> "slave", id |-> 1792 + t.nid, d |-> <<0>>]>> ELSE <<>>)
 
 XStep(st, e, t) ==
+    IF "crash" \in DOMAIN e THEN Bad(st, "state assignment raised something other than ValueError")
+    ELSE IF e.e \in {"inject", "hb"} /\ e.raised THEN Bad(st, "receiving an NMT / heartbeat frame raised")
+    ELSE
     CASE e.e = "cmd" ->
            IF e.raised THEN Bad(st, "send_command raised")
            ELSE IF e.who = "master" THEN MasterCmd(st, e, t, e.code)
